@@ -19,7 +19,8 @@ RULE = ('generated programs (1-4 forms, conditional/cross-form/multi-instance re
         'non-trivial when a not-implemented line was evaluated, a missing input was hit after a successful line, a line '
         'is blocked behind a blocked line, a form was added by late reference, or a refusal followed an answer; '
         'distinct = hash of (program|year+forms+file, prompt)'
-        ' Also: requests of several forms of which exactly one cannot be completed (one read input removed), in every position of the request, through the `habutax solve` command line (verdict text and named diagnostics).')
+        ' Also: requests of several forms of which exactly one cannot be completed (one read input removed), in every position of the request, through the `habutax solve` command line (verdict text and named diagnostics).'
+        ' Requests that make the direct solve abort (an unsupported form next to supported ones) are run through the command line as well: it must abort too. One removed input of every kind per return.')
 ASSUMPTIONS = ['line definitions are deterministic functions of (inputs, values) - checked separately by C03/C05',
                'aborts (NotImplementedError for an unsupported form, InvalidInput, errors from bad references) are allowed outcomes']
 
